@@ -18,6 +18,7 @@ This file
   (3) monitors the two oracle laws of `Oracle.Laws` on every recorded answer.
 """
 import collections
+import itertools
 import copy
 import json
 import os
@@ -59,6 +60,14 @@ CONSTRUCTED = [
     "O=Cc1ccccc1C=O", "O=C1NC(=O)c2ccccc21", "CC(C)(C)ONC(=O)NCc1cccc2ccccc12", "CC(=O)SCC(C)C(=O)N(CC(=O)O)C1CCC1",
     "CS(C)=O", "C[SH](C)(C)=O", "COS(C)(=O)=O", "CN(C)N=O", "CN(C)O", "C[N+](C)(C)[O-]", "CC(C)=NO", "CC(=O)OO",
     "O=C(n1ccnc1)n1ccnc1", "Oc1cccc2[nH]c(COCc3ccccc3)nc12", "CC(=O)Oc1ccccc1C(=O)O", "NC(=O)c1ccccc1", "CCN(CC)CC",
+]
+
+# molecules whose cores keep open points of different kinds (with and without an expansion rule: C / N / O / S next to C)
+MULTI = [
+    "O=C(NCCCOc1ccccc1)c1ccccc1", "CS(=O)CCOC(C)=O", "CC(=O)OCCNC(C)=O", "COC(=O)CCC(=O)OCC", "CCOC(=O)CN(C)C(=O)OC", "CSCCN(C)CCOC",
+    "CC(=O)Nc1ccc(OC(C)=O)cc1", "COc1ccc(SC)cc1OC", "CCN(CC)C(=O)COC(=O)CC", "CC(C)OC(=O)C(C)NC(=O)OC(C)(C)C", "COCCOCCOC", "CNC(=O)CCSC",
+    # isotope labels: hydrogens that are atoms of the molecular graph
+    "[2H]c1ccccc1CCCC", "[2H]C([2H])([2H])OC(=O)CC", "CC(=O)OC([2H])([2H])C", "[3H]c1ccc(OC)cc1", "[2H]N(C)C(=O)CC", "[13CH3]OC(=O)CC",
 ]
 
 # hand-made compound sets (fragment SMILES, source SMILES, boundaries (index, symbol, neighbour index, neighbour symbol))
@@ -971,6 +980,80 @@ def run_cuts(ctx, cases, tabs, jt, label, with_model=True):
     return flows
 
 
+def multi_cut_specs(ctx, smiles_list, per_mol=2, max_orders=6):
+    """fragments with SEVERAL open attachment points: 2-3 acyclic single bonds of one molecule are cut and the small side of
+    each is removed (FindMissingGraphs recipe); the core that is left is completed alone, with its boundaries listed in
+    every order (the completion loop works them off front to back)"""
+    rng = ctx.rng
+    out = []
+    for s in smiles_list:
+        mol = Chem.MolFromSmiles(s)
+        if mol is None or "." in s or mol.GetNumHeavyAtoms() > 40 or mol.GetNumAtoms() < 4:
+            continue
+        s = Chem.MolToSmiles(mol)
+        mol = Chem.MolFromSmiles(s)
+        bonds = [b for b in mol.GetBonds() if not b.IsInRing() and b.GetBondType() == Chem.BondType.SINGLE]
+        if len(bonds) < 2:
+            continue
+        leaf = {}
+        for bd in bonds:
+            i, j = bd.GetBeginAtomIdx(), bd.GetEndAtomIdx()
+            A = side_atoms(mol, i, j)
+            B = set(range(mol.GetNumAtoms())) - A
+            leaf[bd.GetIdx()] = (A, j) if len(A) <= len(B) else (B, i)
+        done = 0
+        for _ in range(8 * per_mol):
+            if done >= per_mol:
+                break
+            k = rng.choice([2, 2, 3]) if len(bonds) >= 3 else 2
+            pick = rng.sample(bonds, k)
+            sides = [leaf[b.GetIdx()][0] for b in pick]
+            if any(sides[a] & sides[b] for a in range(k) for b in range(a + 1, k)):
+                continue
+            removed = set().union(*sides)
+            if any(leaf[b.GetIdx()][1] in removed for b in pick) or len(removed) >= mol.GetNumAtoms() - 1:
+                continue
+            try:
+                fs, fb, fn = pipeline_fragment(mol, tuple(sorted(removed)))
+            except Exception:  # noqa: BLE001
+                ctx.count("multi:fragment recipe raised")
+                continue
+            if len(fb) != len(fn) or len(fb) < 2:
+                ctx.count("multi:recipe lost a boundary")
+                continue
+            bl = []
+            for bdict, ndict in zip(fb, fn):
+                (bs, bi), = bdict.items()
+                (ns, ni), = ndict.items()
+                bl.append((bi, bs, ni, ns))
+            orders = list(itertools.permutations(bl))
+            rng.shuffle(orders)
+            for order in orders[:max_orders]:
+                out.append({"mol": s, "removed": sorted(removed), "spec": [(fs, s, list(order))]})
+            done += 1
+    return out
+
+
+def run_multi(ctx, specs, tabs, jt, label="multi"):
+    flows = []
+    for c in specs:
+        key = {"mol": c["mol"], "removed": c["removed"], "boundaries": [list(b) for b in c["spec"][0][2]], "mode": "multi"}
+        try:
+            comps, before, out, log = run_real(c["spec"])
+        except Exception as e:  # noqa: BLE001
+            ctx.count("multi:set construction raised " + type(e).__name__)
+            continue
+        ctx.case(("multi", c["mol"], tuple(c["removed"]), json.dumps(key["boundaries"])), nontrivial="ok" in out)
+        ctx.count("multi:boundaries=%d" % len(c["spec"][0][2]))
+        if "ok" in out:
+            ctx.count("multi:rules reported=%d" % len(out["ok"]["rules"]))
+        flows.append((key, comps, out, log))
+        stmt_generic(ctx, key, before, out, jt)
+    if flows:
+        corr_flows(ctx, flows, tabs, label)
+    return flows
+
+
 def run_cross(ctx, cases, tabs, jt, n):
     """fragments of two different molecules (what the pipeline merges in practice): generic claims + correspondence"""
     pool = [(c, k) for c in cases for k in (0, 1) if c["sides"][k]["pipeline_boundaries"] == 1 and c["sides"][k]["true"]]
@@ -1110,7 +1193,7 @@ def run(ctx):
         jt = json_tables()
         corr_tables(ctx, tabs)
         fired = run_handmade(ctx, tabs, jt)
-        constructed = cut_cases(ctx, CONSTRUCTED)
+        constructed = cut_cases(ctx, CONSTRUCTED + MULTI)
         run_cuts(ctx, constructed, tabs, jt, "constructed")
         mols = chem.unmapped_corpus_molecules()
         sample = ctx.rng.sample(mols, 700 if quick else 4000)
@@ -1120,6 +1203,7 @@ def run(ctx):
             corpus_cases += part
             run_cuts(ctx, part, tabs, jt, "corpus")
         run_cross(ctx, corpus_cases + constructed, tabs, jt, 300 if quick else 5000)
+        run_multi(ctx, multi_cut_specs(ctx, CONSTRUCTED + MULTI + sample[: 150 if quick else 1500], per_mol=2 if quick else 4), tabs, jt)
         corr_roundtrip_model(ctx, (corpus_cases + constructed)[: 400 if quick else 20000])
         corr_merge_two(ctx, ctx.rng, frag_graph_pool(constructed + corpus_cases), 400 if quick else 5000)
         # which rules were reached
